@@ -130,6 +130,13 @@ func (chain *Blockchain) Get(hash hotstuff.Hash) (block *hotstuff.Block, ok bool
 
 	chain.logger.Debugf("Successfully fetched block: %s", hash.SmallString())
 
+	// the block may have been stored while the reply was on its way; storing it a
+	// second time would put it into the height index twice.
+	if existing, exists := chain.blocks[hash]; exists {
+		block = existing
+		goto done
+	}
+
 	chain.blocks[hash] = block
 	chain.blockAtHeight[block.View()] = append(chain.blockAtHeight[block.View()], block)
 
